@@ -17,18 +17,21 @@ Import ListNotations.
 Local Open Scope list_scope.
 
 (* ------------------------------------------------------------------ the lists *)
+(* an entry makeJson looks at: an unshadowed leaf whose explicit tag is not "-" *)
+Definition j_live (f : field) : bool := oentry f && negb (String.eqb (f_jsontag f) "-").
+
 Section Lists.
   Variables (tc : tagcase) (G S : bool) (ms : list gs_method).
 
   Definition j_exp (f : field) : bool := is_exported (f_name f).
   Definition j_get (f : field) : bool := field_has_getter G ms f.
   Definition j_set (f : field) : bool := field_has_setter S ms f.
-  Definition j_listed (f : field) : bool := oentry f && (j_exp f || j_get f || j_set f).
-  Definition j_getter (f : field) : bool := oentry f && (negb (j_exp f) && j_get f).
-  Definition j_setter (f : field) : bool := oentry f && (negb (j_exp f) && j_set f).
-  Definition j_exported (f : field) : bool := oentry f && j_exp f.
+  Definition j_listed (f : field) : bool := j_live f && (j_exp f || j_get f || j_set f).
+  Definition j_getter (f : field) : bool := j_live f && (negb (j_exp f) && j_get f).
+  Definition j_setter (f : field) : bool := j_live f && (negb (j_exp f) && j_set f).
+  Definition j_exported (f : field) : bool := j_live f && j_exp f.
   Definition j_need (f : field) : bool :=
-    oentry f && (if j_exp f then negb (has_json_tag f) && negb (String.eqb (json_tag_of tc f) (f_name f))
+    j_live f && (if j_exp f then negb (has_json_tag f) && negb (String.eqb (json_tag_of tc f) (f_name f))
                  else j_get f || j_set f).
 
   Lemma json_loop_lists : forall fs a,
@@ -41,9 +44,10 @@ Section Lists.
   Proof.
     induction fs as [|f fs IH]; intros a; cbn [make_json_loop filter map existsb].
     - rewrite !app_nil_r, orb_false_r. auto.
-    - unfold j_listed at 1, j_getter at 1, j_setter at 1, j_exported at 1, j_need at 1, oentry, j_exp, j_get, j_set.
+    - unfold j_listed at 1, j_getter at 1, j_setter at 1, j_exported at 1, j_need at 1, j_live, oentry, j_exp, j_get, j_set.
       destruct (f_shadowed f); cbn [orb negb andb]; [apply IH|].
       destruct (f_embedded f); cbn [orb negb andb]; [apply IH|].
+      destruct (String.eqb (f_jsontag f) "-"); cbn [negb andb]; [apply IH|].
       destruct (is_exported (f_name f)), (field_has_getter G ms f), (field_has_setter S ms f); cbn [orb andb negb];
         match goal with |- context [make_json_loop tc G S ms fs ?A] => destruct (IH A) as [I1 [I2 [I3 [I4 I5]]]] end;
         cbn zeta in *; rewrite I1, I2, I3, I4, I5; cbn [jd_list jd_getters jd_setters jd_exported jd_json map app];
@@ -52,26 +56,27 @@ Section Lists.
 
   (* JSONTagMap: the tag of the LAST unshadowed leaf entry of the name *)
   Definition last_tag (n : ident) (fs : list field) (acc : option string) : option string :=
-    fold_left (fun acc f => if oentry f && String.eqb (f_name f) n then Some (json_tag_of tc f) else acc) fs acc.
+    fold_left (fun acc f => if j_live f && String.eqb (f_name f) n then Some (json_tag_of tc f) else acc) fs acc.
 
   Lemma json_loop_tags : forall fs a n,
     assoc n (jd_tags (make_json_loop tc G S ms fs a)) = last_tag n fs (assoc n (jd_tags a)).
   Proof.
     induction fs as [|f fs IH]; intros a n; cbn [make_json_loop]; [reflexivity|].
     change (last_tag n (f :: fs) (assoc n (jd_tags a)))
-      with (last_tag n fs (if oentry f && String.eqb (f_name f) n then Some (json_tag_of tc f) else assoc n (jd_tags a))).
-    unfold oentry.
+      with (last_tag n fs (if j_live f && String.eqb (f_name f) n then Some (json_tag_of tc f) else assoc n (jd_tags a))).
+    unfold j_live at 1, oentry.
     destruct (f_shadowed f); cbn [orb negb andb]; [apply IH|].
     destruct (f_embedded f); cbn [orb negb andb]; [apply IH|].
+    destruct (String.eqb (f_jsontag f) "-"); cbn [negb andb]; [apply IH|].
     rewrite IH. cbn [jd_tags]. rewrite assoc_map_put, String.eqb_sym. reflexivity.
   Qed.
 
   Lemma last_tag_stable : forall n fs s,
-    (forall e, In e (filter oentry fs) -> f_name e = n -> json_tag_of tc e = s) ->
+    (forall e, In e (filter j_live fs) -> f_name e = n -> json_tag_of tc e = s) ->
     last_tag n fs (Some s) = Some s.
   Proof.
     intros n fs s. unfold last_tag. induction fs as [|f fs IH]; intros H; simpl; auto.
-    simpl in H. destruct (oentry f) eqn:Of; simpl.
+    simpl in H. destruct (j_live f) eqn:Of; simpl.
     - destruct (String.eqb (f_name f) n) eqn:En.
       + apply String.eqb_eq in En. rewrite (H f (or_introl eq_refl) En). apply IH. intros e He. apply H. right. exact He.
       + apply IH. intros e He. apply H. right. exact He.
@@ -79,12 +84,12 @@ Section Lists.
   Qed.
 
   Lemma last_tag_found : forall n fs s acc e,
-    In e (filter oentry fs) -> f_name e = n ->
-    (forall e', In e' (filter oentry fs) -> f_name e' = n -> json_tag_of tc e' = s) ->
+    In e (filter j_live fs) -> f_name e = n ->
+    (forall e', In e' (filter j_live fs) -> f_name e' = n -> json_tag_of tc e' = s) ->
     last_tag n fs acc = Some s.
   Proof.
     intros n fs s. induction fs as [|f fs IH]; intros acc e He Hn H; [destruct He|].
-    unfold last_tag. simpl. simpl in He, H. destruct (oentry f) eqn:Of; simpl.
+    unfold last_tag. simpl. simpl in He, H. destruct (j_live f) eqn:Of; simpl.
     - destruct (String.eqb (f_name f) n) eqn:En.
       + apply String.eqb_eq in En. rewrite (H f (or_introl eq_refl) En).
         apply last_tag_stable. intros e' He'. apply H. right. exact He'.
@@ -158,13 +163,36 @@ Proof.
     destruct (fd_tag fd); destruct (fl_json fl); reflexivity.
 Qed.
 
-(* the tag of an entry is the declarative one *)
+Lemma find_occ_in : forall p l o, find_occ p l = Some o -> In o l.
+Proof.
+  intros p l. induction l as [|x r IH]; intros o H; simpl in H; [discriminate|].
+  destruct (path_eqb (fst x) p); [inversion H; left; reflexivity|right; auto].
+Qed.
+
+(* without tags below the top level, the declaration of a promoted leaf carries none *)
+Lemma spec_tag_deep : forall pkg fuel sd a b r,
+  no_promoted_json_tags pkg fuel sd = true -> spec_tag pkg fuel sd (a :: b :: r) = ""%string.
+Proof.
+  intros pkg fuel sd a b r NP. unfold spec_tag, declaring_struct.
+  destruct (find_occ (removelast (a :: b :: r)) (all_occ pkg fuel (self_inst sd))) as [o|] eqn:EF; [|reflexivity].
+  destruct (occ_emb o) eqn:Eo; [|reflexivity].
+  destruct (struct_of pkg (occ_ty o)) as [[sd' args]|] eqn:Es; [|reflexivity]. cbn [option_map fst].
+  unfold no_promoted_json_tags in NP. rewrite forallb_forall in NP.
+  specialize (NP o (find_occ_in _ _ _ EF)). rewrite Eo, Es in NP.
+  unfold tag_in_decls. destruct (find (decl_has_name (last (a :: b :: r) ""%string)) (sd_fields sd')) as [fd|] eqn:Ef; [|reflexivity].
+  apply find_some in Ef. destruct Ef as [Hin _].
+  unfold struct_no_json_tags in NP. rewrite forallb_forall in NP. specialize (NP fd Hin). apply String.eqb_eq in NP.
+  rewrite NP. destruct (fd_names fd); reflexivity.
+Qed.
+
+(* the tag of an entry is the tag of the field's declaration *)
 Lemma entry_json_tag : forall pkg fl fuel sd raw e,
   raw_top pkg fl fuel (sd_fields sd) = COk raw -> wf_structs pkg fuel sd = true ->
+  no_promoted_json_tags pkg fuel sd = true ->
   In e raw -> f_embedded e = false ->
-  f_jsontag e = if fl_json fl then spec_tag sd (f_path e) else ""%string.
+  f_jsontag e = if fl_json fl then spec_tag pkg fuel sd (f_path e) else ""%string.
 Proof.
-  intros pkg fl fuel sd raw e Hraw GW He Hemb.
+  intros pkg fl fuel sd raw e Hraw GW NP He Hemb.
   assert (ND := top_names_nodup _ _ _ GW). unfold top_tfields in ND.
   (* walk the declarations *)
   assert (W : forall fds raw0, raw_top pkg fl fuel fds = COk raw0 -> In e raw0 ->
@@ -189,12 +217,12 @@ Proof.
           split; [discriminate|]. split; auto. split; auto. eapply raw_names_tag; eauto.
       + destruct (IH b eq_refl He0) as [fd' [Hfd' C]]. exists fd'. split; [right; exact Hfd'|exact C]. }
   destruct (W (sd_fields sd) raw Hraw He) as [fd [Hfd [[Hne [Hp [Hin Ht]]]|[Hn [Ht [first [r0 [rest [Hp _]]]]]]]]].
-  - rewrite Ht, Hp. unfold spec_tag, flag_tag.
-    assert (Hfind : top_decl sd [f_name e] = Some fd).
-    { unfold top_decl. apply find_decl_unique; auto. unfold decl_names. rewrite tfields_of_decl_names.
+  - rewrite Ht, Hp. unfold spec_tag, declaring_struct, tag_in_decls, flag_tag. cbn [last].
+    assert (Hfind : find (decl_has_name (f_name e)) (sd_fields sd) = Some fd).
+    { apply find_decl_unique; auto. unfold decl_names. rewrite tfields_of_decl_names.
       destruct (fd_names fd) as [|y ys]; [congruence|exact Hin]. }
     rewrite Hfind. destruct (fd_names fd); [congruence|]. reflexivity.
-  - rewrite Ht, Hp. unfold spec_tag. destruct (fl_json fl); reflexivity.
+  - rewrite Ht, Hp, (spec_tag_deep pkg fuel sd first r0 rest NP). destruct (fl_json fl); reflexivity.
 Qed.
 
 (* ------------------------------------------------------------ the key table *)
@@ -205,21 +233,22 @@ Proof. intros l f. destruct (mark_with_keeps l f) as [E|E]; rewrite E; reflexivi
 Lemma mark_with_set : forall l f, f_set (mark_with l f) = f_set f.
 Proof. intros l f. destruct (mark_with_keeps l f) as [E|E]; rewrite E; reflexivity. Qed.
 
-(* every listed field is a field Go selects by its bare name, and its member name is the explicit tag of the
-   declaration (the struct's own fields only) else the -tagcase transform of the name *)
+(* every entry makeJson looks at is the field Go selects by its bare name, and its tag text in JSONTagMap is the explicit
+   tag of the field's declaration else the -tagcase transform of the name *)
 Theorem key_table : forall pkg v fl fuel sd fields d nd jd,
   json_of pkg v fl fuel sd = COk (fields, d, nd, jd) ->
-  fl_json fl = true -> c02_guard pkg fuel sd = true ->
-  forall e, In e fields -> oentry e = true ->
+  fl_json fl = true -> c02_guard pkg fuel sd = true -> no_promoted_json_tags pkg fuel sd = true ->
+  forall e, In e fields -> j_live e = true ->
     resolve pkg fuel sd (f_name e) = Some (f_path e) /\
-    assoc_s (f_name e) (jd_tags jd) = spec_key_tag fl sd (f_path e).
+    assoc_s (f_name e) (jd_tags jd) = spec_key_tag pkg fl fuel sd (f_path e).
 Proof.
-  intros pkg v fl fuel sd fields d nd jd H HJ G e He Oe.
+  intros pkg v fl fuel sd fields d nd jd H HJ G NP e He Le.
   destruct (c02_guard_parts _ _ _ G) as [GB [GW [GU [GN [_ [_ [GX _]]]]]]].
   unfold json_of, getset_of in H.
   destruct (flatten pkg fl fuel sd) as [[fs hn]| |] eqn:EF; try discriminate.
   inversion H; subst fields d nd jd. clear H.
   destruct (flatten_is_marked_raw _ _ _ _ _ _ EF) as [raw [Hraw [Hfs _]]].
+  assert (Oe : oentry e = true) by (unfold j_live in Le; apply andb_true_iff in Le; tauto).
   assert (Oe' := Oe). unfold oentry in Oe'. apply andb_true_iff in Oe'. destruct Oe' as [Se Ee].
   apply negb_true_iff in Se. apply negb_true_iff in Ee.
   split.
@@ -229,14 +258,15 @@ Proof.
     rewrite (last_tag_found (fl_tagcase fl) (f_name e) fs (json_tag_of (fl_tagcase fl) e) None e).
     + subst fs. destruct (in_mark _ _ He) as [e0 [He0 Ee0]].
       assert (Emb0 : f_embedded e0 = false) by (rewrite Ee0, mark_with_embedded in Ee; exact Ee).
-      pose proof (entry_json_tag pkg fl fuel sd raw e0 Hraw GW He0 Emb0) as TG. rewrite HJ in TG.
+      pose proof (entry_json_tag pkg fl fuel sd raw e0 Hraw GW NP He0 Emb0) as TG. rewrite HJ in TG.
       destruct (raw_path_last pkg fl fuel sd raw e0 Hraw GB GW GU GN GX He0) as [pre Hp].
       unfold json_tag_of, has_json_tag, spec_key_tag. rewrite HJ, Ee0, mark_with_jsontag, mark_with_name, mark_with_path, TG.
-      destruct (String.eqb (spec_tag sd (f_path e0)) ""); cbn [negb]; [|reflexivity].
+      destruct (String.eqb (spec_tag pkg fuel sd (f_path e0)) ""); cbn [negb]; [|reflexivity].
       rewrite Hp, last_last. reflexivity.
     + apply filter_In. auto.
     + reflexivity.
-    + intros e' He' Hn'. apply filter_In in He'. destruct He' as [I' O'].
+    + intros e' He' Hn'. apply filter_In in He'. destruct He' as [I' L'].
+      unfold j_live in L'. apply andb_true_iff in L'. destruct L' as [O' _].
       unfold oentry in O'. apply andb_true_iff in O'. destruct O' as [S' _]. apply negb_true_iff in S'.
       f_equal. apply UU; auto.
 Qed.
@@ -298,6 +328,40 @@ Proof.
   eapply Gen; eauto.
 Qed.
 
+Lemma nodup_str_filter : forall A (g : A -> string) (p : A -> bool) l,
+  nodup_str (map g l) = true -> nodup_str (map g (filter p l)) = true.
+Proof.
+  intros A g p l. induction l as [|x r IH]; intros H; [reflexivity|].
+  cbn [map nodup_str] in H. apply andb_true_iff in H. destruct H as [H1 H2]. cbn [filter].
+  destruct (p x); [|apply IH; exact H2]. cbn [map nodup_str]. rewrite (IH H2), andb_true_r.
+  apply negb_true_iff. apply negb_true_iff in H1. apply not_true_is_false. intros T.
+  apply existsb_exists in T. destruct T as [k [Hk Ek]].
+  assert (existsb (String.eqb (g x)) (map g r) = true).
+  { apply existsb_exists. exists k. split; auto. apply in_map_iff in Hk. destruct Hk as [u [Eu Hu]].
+    apply filter_In in Hu. apply in_map_iff. exists u. tauto. }
+  congruence.
+Qed.
+
+Lemma NoDup_map_filter : forall A B (g : A -> B) (p : A -> bool) l, NoDup (map g l) -> NoDup (map g (filter p l)).
+Proof.
+  intros A B g p l. induction l as [|x r IH]; intros H; [constructor|]. cbn [map] in H. inversion H; subst.
+  cbn [filter]. destruct (p x); [|auto]. cbn [map]. constructor; auto.
+  intros T. apply H2. apply in_map_iff in T. destruct T as [u [Eu Hu]]. apply filter_In in Hu.
+  apply in_map_iff. exists u. tauto.
+Qed.
+
+(* with distinct keys, the entry of a key is unique *)
+Lemma key_unique : forall (key : ident -> string) (fy : list (ident * val)) a b,
+  NoDup (map (fun p : ident * val => key (fst p)) fy) -> In a fy -> In b fy -> key (fst a) = key (fst b) -> a = b.
+Proof.
+  intros key fy a b. induction fy as [|z r IH]; intros ND Ha Hb E; [destruct Ha|].
+  cbn [map] in ND. inversion ND; subst. destruct Ha as [Ha|Ha]; destruct Hb as [Hb|Hb].
+  - congruence.
+  - subst z. exfalso. apply H1. rewrite E. apply in_map_iff. exists b. auto.
+  - subst z. exfalso. apply H1. rewrite <- E. apply in_map_iff. exists a. auto.
+  - apply IH; auto.
+Qed.
+
 Section RoundTrip.
   (* encoding/json, as far as the property needs it: an object is a list of members; decoding what was encoded gives
      the members back when their names are distinct under case folding *)
@@ -324,10 +388,11 @@ Section RoundTrip.
     (forall f, In f (jd_list jd) -> json_dropped jd f = false).
   Proof.
     pose proof AL as A. unfold json_aligned in A.
-    apply andb_true_iff in A. destruct A as [A A8]. apply andb_true_iff in A. destruct A as [A A7].
+    apply andb_true_iff in A. destruct A as [A A7].
     apply andb_true_iff in A. destruct A as [A A6]. apply andb_true_iff in A. destruct A as [A A5].
     apply andb_true_iff in A. destruct A as [A A4]. apply andb_true_iff in A. destruct A as [A A3].
     apply andb_true_iff in A. destruct A as [A1 A2].
+    pose proof KO as K. unfold json_keys_ok in K. apply andb_true_iff in K. destruct K as [_ A8].
     rewrite forallb_forall in A1, A2, A3, A4, A5, A6, A8.
     split; [exact A1|]. split; [exact A2|]. split.
     { intros f Hf. specialize (A3 f Hf). apply andb_true_iff in A3. destruct A3 as [L R]. split.
@@ -442,28 +507,42 @@ Section RoundTrip.
     (* the members *)
     unfold marshal in HM. destruct (marshal_fields pkg v fuel sd jd x (jd_list jd)) as [fy| |] eqn:EM; simpl in HM; try discriminate.
     destruct (marshal_fields_spec _ _ _ _ _ _ _ _ EM) as [FS FV].
-    rewrite filter_all in HM.
-    2:{ intros [g y] Hg. cbn [fst]. rewrite NDrop; [reflexivity|]. rewrite <- FS. apply in_map_iff. exists (g, y). auto. }
     inversion HM; subst kv. clear HM.
-    unfold json_keys_ok in KO. apply andb_true_iff in KO. destruct KO as [KN _].
-    assert (KD : nodup_str (map (fun m : string * val => lower (fst m)) (map (fun p : ident * val => (json_key jd (fst p), snd p)) fy)) = true).
-    { rewrite map_map. cbn [fst]. rewrite <- FS in KN. rewrite map_map in KN. exact KN. }
+    set (kf := fun p : ident * val => (json_key jd (fst p), snd p)) in *.
+    pose proof KO as KO'. unfold json_keys_ok in KO'. apply andb_true_iff in KO'. destruct KO' as [KO' _].
+    apply andb_true_iff in KO'. destruct KO' as [KN _].
+    assert (KNDall : NoDup (map (fun p : ident * val => json_key jd (fst p)) fy)).
+    { apply nodup_lower_nodup. rewrite <- FS in KN. rewrite !map_map in *. exact KN. }
+    assert (KD : nodup_str (map (fun m : string * val => lower (fst m)) (map kf (filter (json_kept jd) fy))) = true).
+    { rewrite map_map. unfold kf. cbn [fst]. apply nodup_str_filter. rewrite <- FS in KN. rewrite map_map in KN. exact KN. }
     rewrite (dec_enc _ KD) in HU.
-    assert (KND : NoDup (map (fun p : ident * val => json_key jd (fst p)) fy)).
-    { apply nodup_lower_nodup. rewrite map_map. rewrite map_map in KD. exact KD. }
     (* the value the shadow struct holds for a listed field *)
     assert (SV : forall g, In g (jd_list jd) -> exists y, marshal_field pkg v fuel sd jd x g = Ok y /\
-                 shadow_value jd (map (fun p : ident * val => (json_key jd (fst p), snd p)) fy) g = y).
+                 shadow_value jd (map kf (filter (json_kept jd) fy)) g = y).
     { intros g Hg. rewrite <- FS in Hg. apply in_map_iff in Hg. destruct Hg as [[g' y] [Eg Hin]]. cbn [fst] in Eg. subst g'.
-      exists y. split; [eapply FV; eauto|]. unfold shadow_value. rewrite NDrop by (rewrite <- FS; apply in_map_iff; exists (g, y); auto).
-      rewrite (assoc_by_key (json_key jd) fy g y KND Hin). reflexivity. }
+      exists y. split; [eapply FV; eauto|]. unfold shadow_value.
+      assert (ND' : json_dropped jd g = false) by (apply NDrop; rewrite <- FS; apply in_map_iff; exists (g, y); auto).
+      rewrite ND'.
+      destruct (json_kept jd (g, y)) eqn:EK.
+      - assert (Hin' : In (g, y) (filter (json_kept jd) fy)) by (apply filter_In; auto).
+        unfold kf. rewrite (assoc_by_key (json_key jd) (filter (json_kept jd) fy) g y (NoDup_map_filter _ _ _ _ _ KNDall) Hin').
+        reflexivity.
+      - (* omitted: the value was zero, the member is absent, the shadow struct holds zero *)
+        assert (NK : assoc (json_key jd g) (map kf (filter (json_kept jd) fy)) = None).
+        { apply assoc_in_none. rewrite map_map. unfold kf. cbn [fst]. intros T. apply in_map_iff in T.
+          destruct T as [u [Eu Hu]]. apply filter_In in Hu. destruct Hu as [Hu Ku].
+          assert (u = (g, y)) by (apply (key_unique (json_key jd) fy); auto).
+          subst u. congruence. }
+        rewrite NK. unfold json_kept in EK. cbn [fst snd] in EK. rewrite ND' in EK. cbn [negb andb] in EK.
+        apply negb_false_iff in EK. unfold json_omitted in EK. apply andb_true_iff in EK. destruct EK as [_ EZ].
+        destruct y; try discriminate. reflexivity. }
     (* the run *)
     rewrite unmarshal_run in HU.
     assert (Sub : forall g, In g (jd_setters jd ++ jd_exported jd) -> In g (jd_list jd)).
     { intros g Hg. apply IL. apply in_or_app. right. exact Hg. }
     pose proof (run_last_wins _ _ _ (jp f) HU) as RL.
     rewrite (last_assign_fields _ _ f ND Sub Hf) in RL.
-    assert (AP : forall p, In p (map fst (assignments (map (fun p0 : ident * val => (json_key jd (fst p0), snd p0)) fy)
+    assert (AP : forall p, In p (map fst (assignments (map kf (filter (json_kept jd) fy))
                                                       (jd_setters jd ++ jd_exported jd))) -> apart p (jp f)).
     { intros p Hp. unfold assignments in Hp. rewrite map_map in Hp. cbn [fst] in Hp. apply in_map_iff in Hp.
       destruct Hp as [g [Ep Hg]]. subst p. destruct (AR g (Sub g Hg)) as [Lg _]. destruct (AR f Hf) as [Lf _].
